@@ -99,3 +99,43 @@ Definition kempty : ktable := fun _ => None.
 (* messages as the tokens really send them: a token reports only after it was probed, and asks again only once *)
 Definition erase (e : option kentry) : option entry :=
   match e with None => None | Some KAsked => Some Asked | Some (KReady _) => Some Ready end.
+
+(** * The answer as the token reads it.  The gateway hands a token its decision in a slice; the token reads the slice
+    when it gets to run.  [fresh] = the slice is made anew for every decision (the sources: Gen/Facts.v
+    src_answer_slice_is_fresh: it is a variable of the case that handles one report); false = one slice of the
+    gateway's goroutine is emptied and filled again for every decision. *)
+Inductive aop := ADecide (t : nat) (d : nat) | ARead (t : nat).
+Record ast := { cells : list nat; owner : list (nat * nat); seen_ : list (nat * nat) }.  (* owner: token -> cell *)
+
+Fixpoint poke_ (l : list nat) (i v : nat) : list nat :=
+  match l, i with
+  | [], _ => []
+  | _ :: r, 0 => v :: r
+  | x :: r, S k => x :: poke_ r k v
+  end.
+Fixpoint cell_of (o : list (nat * nat)) (t : nat) : option nat :=
+  match o with [] => None | (a, c) :: r => if a =? t then Some c else cell_of r t end.
+
+Definition astep (fresh : bool) (s : ast) (o : aop) : ast :=
+  match o with
+  | ADecide t d =>
+      if fresh || (match cells s with [] => true | _ => false end)
+      then {| cells := cells s ++ [d]; owner := (t, length (cells s)) :: owner s; seen_ := seen_ s |}
+      else {| cells := poke_ (cells s) 0 d; owner := (t, 0) :: owner s; seen_ := seen_ s |}
+  | ARead t =>
+      match cell_of (owner s) t with
+      | Some c => match nth_error (cells s) c with
+                  | Some d => {| cells := cells s; owner := owner s; seen_ := (t, d) :: seen_ s |}
+                  | None => s
+                  end
+      | None => s
+      end
+  end.
+Definition arun (fresh : bool) (ops : list aop) : ast := fold_left (astep fresh) ops {| cells := []; owner := []; seen_ := [] |}.
+(* what was decided for token t last, before position [ops] ends *)
+Fixpoint decided (ops : list aop) (t : nat) (acc : option nat) : option nat :=
+  match ops with
+  | [] => acc
+  | ADecide a d :: r => decided r t (if a =? t then Some d else acc)
+  | ARead _ :: r => decided r t acc
+  end.
